@@ -137,7 +137,7 @@ func TestVerifC07(t *testing.T) {
 	scs := []vr.Scenario{
 		c07Scenario("tdc-tcp-c1-faults-deadline", tOpt{Kind: "tdc-tcp", Callers: 1, Srv: faults, CtxMode: []int{1}}, d, 0, false),
 		c07Scenario("tdc-udp-c1-faults-deadline", tOpt{Kind: "tdc-udp", Callers: 1, Srv: faults, CtxMode: []int{1}}, d, 0, false),
-		c07Scenario("tdc-tcp-c2-closer", tOpt{Kind: "tdc-tcp", Callers: 2, Srv: srvOpt{Silent: true}, Closer: true}, d, 0, false),
+		c07Scenario("tdc-tcp-c2-closer", tOpt{Kind: "tdc-tcp", Callers: 2, Srv: srvOpt{Silent: true}, Closer: true}, dt, 0, false),
 		c07Scenario("tdc-tcp-c1-cancel-reset", tOpt{Kind: "tdc-tcp", Callers: 1, Srv: srvOpt{CloseBudget: 1, ResetOnly: true, Silent: true}, CtxMode: []int{2}}, d, 0, false),
 		c07Scenario("tdc-tcp-c1-writefail", tOpt{Kind: "tdc-tcp", Callers: 1, Seq: 2, Srv: srvOpt{AnswerAll: true}, WriteFailNth: 1}, d, 0, false),
 		c07Scenario("pipeline-tcp-c2-dialfaults-closer", tOpt{Kind: "pipeline-tcp", Callers: 2, Srv: srvOpt{AnswerAll: true}, DialMenu: []int{0, 1, 2}, Closer: true}, dt, 0, false),
